@@ -76,7 +76,7 @@ C01_RoundTrip == (MODE = "names" /\ OutRaw.ok) =>
      LET c == FormatSpec(OutRaw.v)  r == ParseF(c, Typed, LowerTab) IN r.ok /\ r.v = OutRaw.v /\ FormatSpec(r.v) = c
 \* D3 on the model: the pinned scan-then-branch lower-casing differs from the rule exactly on
 \* names whose first character with a lower-case mapping is a titlecase letter
-PinnedDiffers == LowerInPlacePinned(w, LowerTab, {198}) # NugetName(w, LowerTab)
+PinnedSame == LowerInPlacePinned(w, LowerTab, {198, 931}) = NugetName(w, LowerTab)     \* violated: vacuity control (tools/selftest.py)
 
 \* ---- lookup (C15)
 C15_Lookup == MODE = "lookup" =>
